@@ -59,11 +59,20 @@ LEAN_MODULE_EXTRA += ['CC.Properties.C16PassivePort']
 THEOREMS += ['CC.C16_passive_probe_sound', 'CC.C16_passive_port_mpr', 'CC.C16_passive_port_mp', 'CC.C16_passive_port',
     'CC.passiveKeepsNode_zero', 'CC.passiveKeepsNode_of_not_short_terminal', 'CC.passive_stage_eq',
     'CC.circuitEqsAll_filter_open', 'CC.C16ex.exP4_probe_wellPosed', 'CC.C16ex.exPR_solves']
+# Round 5c: the CONVERSE of short-circuit contraction (CC/Proofs/ContractConverse.lean: induction along the contraction
+# steps; CC/Properties/C16Converse2.lean: removeShort, passive_network, PortZ without the two extra hypotheses)
+LEAN_MODULE_EXTRA += ['CC.Proofs.ContractConverse', 'CC.Properties.C16Converse2']
+THEOREMS += ['CC.step_converse', 'CC.contractAll_converse', 'CC.Elem.zeroVoltOK_iff', 'CC.Elem.zeroVoltOK_of_sourceFree',
+    'CC.C16_short_converse', 'CC.C16_short_converse_needs', 'CC.C16_short_iff', 'CC.C16_short_iff_sourceFree',
+    'CC.C16_short_solvable_iff', 'CC.droppedZeroOK_stage', 'CC.C16_passive_converse', 'CC.C16_passive_converse_all',
+    'CC.C16_passive_iff', 'CC.circuitEqsAll_filter_open_converse', 'CC.C16_passive_probe_converse',
+    'CC.C16_passive_port_iff', 'CC.C16_passive_probe_solvable_iff',
+    'CC.C16ex.exD_short', 'CC.C16ex.exDR_solves', 'CC.C16ex.exD_dropped', 'CC.C16ex.exN_dropped', 'CC.C16ex.exBad_not_ok']
 OPEN_STATEMENTS = ['WHICH branches survive contraction: PROVED in round 5 for the model — C16_short_shape (result = input branch list renamed by the computable node renaming shortSigma, minus the branches whose renamed terminals coincide; an equation between returned values, exceptions included), C16_short_survivors_iff / C16_short_survives / C16_short_contracted_dropped / C16_short_dropped_iff / C16_exempt_dropped_only_if_joined / C16_short_order, and the facts about the renaming (C16_short_sigma_eq_iff: two nodes get one name iff joined by non-exempt shorts; reference node and non-terminals fixed; nothing mapped to an absorbed node). A model that discards branches no longer satisfies the C16 theorems. What remains outside the theorems: they speak about the hand model, tied to the code by C16_gen_removeShort and per instance by the structural correspondence; self-loops of the INPUT are dropped iff at least one short is contracted (stated, C16_short_shape — a property of the code, not judged as right or wrong); C16_short_dropped_iff needs distinct identifiers (the Network constructor enforces them on the result, the hypothesis is on the input)',
                    'remove_open / remove_element / switch_ground / remove_ideal_* / passive_network: result branch lists PROVED in round 5 (C16_open_branches, C16_remove_element_filter [distinct ids], C16_switch_ground_branches + C16_switch_ground_ok_iff, C16_removeIdealCS_shape, C16_removeIdealVS_shape, C16_passive_shape, C16_passive_survivors_iff). "The input network is never modified" is not a statement about the model — its functions are pure, there is nothing to prove; that the Python functions do not mutate their arguments is judged by the oracle (input_modified) and by C20',
-                   'converse direction for short-circuit contraction (every solution of the contracted network extends to the original): not universally true — a branch parallel to a contracted short is dropped (C16_short_dropped_iff says exactly which), and if it is an ideal source with V ≠ 0 the original has no solution; proved for open removal (C16_open_converse / C16_open_iff), covered per instance by the exact-solution oracle otherwise',
-                   'solution-level statements (CircuitEqs preserved) for remove_ideal_* / passive_network relative to the zeroed network: PROVED in round 5b as one theorem each — C16_removeIdealCS_sound, C16_removeIdealVS_sound, C16_passive_sound (every solution of the input skeleton with its non-exempt current / voltage / all sources set to 0 solves the returned network; reference label kept; every surviving branch is an input branch with the zeroed record, terminals moved only between equipotential nodes) and C16_passive_reported (well-posed result: the solver reports those values). The zeroing operations themselves are equivalences (C04_zero_voltage_solutions / C04_zero_current_solutions: same solution set as the skeleton with source value 0, record-class change included). Still one direction only for the compositions: the converse (every solution of the result extends to the source-zeroed input) is proved for open removal (C16_open_iff) but not for contraction — it needs currents through the contracted shorts routed along a spanning forest of the short-circuit graph; covered per instance by the exact-solution oracle',
-                   'passive_network port-impedance equality: PARTIAL in round 5b (CC/Properties/C16PassivePort.lean). Proved: every solution of the Spec probe network of N (all sources zeroed, unit test current a→b) solves the probe network of passive_network(N, keep), for two different nodes that the contraction does not rename (C16_passive_probe_sound; PassiveKeepsNode holds for the reference node and every node that is not a terminal of a contracted short / zeroed ideal voltage source); hence PortZ N\' z ⇒ PortZ N z when the probe network of N is solvable (C16_passive_port_mpr), PortZ N z ⇒ PortZ N\' z when the probe network of N\' is well-posed (C16_passive_port_mp), and the equivalence under both hypotheses (C16_passive_port; hypotheses met by a concrete network, C16ex). MISSING for the unconditional equality: the converse of short-circuit contraction for source-free networks — every solution of the contracted network extends to the original, the currents through the contracted shorts being routed along a spanning forest of the short-circuit graph so that KCL holds at the absorbed nodes; also not covered: ports at renamed nodes (needs pot (σ x) = pot x as a lemma) and a = b']
+                   'converse direction for short-circuit contraction (every solution of the contracted network extends to the original): PROVED in round 5c for the model (CC/Proofs/ContractConverse.lean step_converse / contractAll_converse, CC/Properties/C16Converse2.lean) — C16_short_converse: for a network with distinct identifiers, every solution R\' of remove_short_circuit_elements(N, keep) extends to a solution R of N with R.pot = R\'.pot ∘ σ, the same voltage and current on every surviving branch and voltage 0 on every dropped branch, under the hypothesis DroppedZeroOK (every branch whose terminals are joined by non-exempt shorts can meet its law at voltage 0, i.e. is not an ideal voltage source with V ≠ 0 — Elem.zeroVoltOK_iff); the hypothesis is necessary (C16_short_converse_needs: it holds whenever N has a solution) and holds for source-free dropped branches; hence C16_short_iff (solutions of N\' = restrictions of solutions of N) and C16_short_solvable_iff (no hypothesis on elements). Not universally true without the hypothesis (C16ex.exBad). What remains outside: the hypothesis N.ids.Nodup on the INPUT (reports are indexed by identifier); the extension is not unique (currents in cycles of shorts); model ↔ Python as for all C16 theorems',
+                   'solution-level statements (CircuitEqs preserved) for remove_ideal_* / passive_network relative to the zeroed network: PROVED in round 5b as one theorem each — C16_removeIdealCS_sound, C16_removeIdealVS_sound, C16_passive_sound (every solution of the input skeleton with its non-exempt current / voltage / all sources set to 0 solves the returned network; reference label kept; every surviving branch is an input branch with the zeroed record, terminals moved only between equipotential nodes) and C16_passive_reported (well-posed result: the solver reports those values). The zeroing operations themselves are equivalences (C04_zero_voltage_solutions / C04_zero_current_solutions: same solution set as the skeleton with source value 0, record-class change included). The converse for passive_network is PROVED in round 5c: C16_passive_converse (every solution of passive_network(N, keep) extends to the source-zeroed input, same values on everything that survives) under the single hypothesis that no EXEMPTED branch dropped by the contraction is an ideal voltage source with V ≠ 0 (droppedZeroOK_stage: non-exempt branches meet it by themselves); unconditional for the empty exemption list (C16_passive_converse_all); C16_passive_iff combines both directions. Not done: the separate converses for remove_ideal_current_sources / remove_ideal_voltage_sources as theorems of their own (they are the two halves of the proof of C16_passive_converse)',
+                   'passive_network port-impedance equality: PROVED in round 5c without the two extra hypotheses — C16_passive_port_iff: for N\' = passive_network(N, keep), a ≠ b two nodes that the contraction does not rename (PassiveKeepsNode: the reference node, every node that is not a terminal of a contracted short / zeroed ideal voltage source) and a probe identifier that is not an identifier of N: PortZ N pid a b z ↔ PortZ N\' pid a b z for every z, with neither solvability of the probe network of N nor well-posedness of that of N\' assumed (C16_passive_probe_sound + C16_passive_probe_converse; C16_passive_probe_solvable_iff). The round-5b forms C16_passive_port / _mp / _mpr stay as they are (hypothesis pid ∉ N\'.ids there, pid ∉ N.ids here). STILL NOT COVERED: ports at nodes that ARE renamed by the contraction (state at the renamed labels: the converse gives pot x = pot\' (σ x), the probe branch would have to be attached at σ a, σ b) and a = b']
 ASSUMPTIONS = [
     'hand-written model CC/Model/Transform.lean is tied to Network/transformers.py twice: by the translator (CC/Gen/Transformers.lean, regenerated every run, proved equal to the hand model by C16_gen_*) and by the structural correspondence',
     'theorems give: every solution of the original solves the result; equality of *the* solutions additionally uses C01_unique for a well-posed result',
